@@ -466,7 +466,10 @@ let () =
                | Gen.DEnum es -> Json.JObj [ (key "name", jstr n); (key "enum", Json.JArr (Stdlib.List.map jstr es)) ])
                (Gen.emitted i) in
            "ok " ^ bh (Json.print (Json.JObj [ (key "panics", Json.JBool (Gen.generator_panics i)); (key "defs", Json.JArr defs);
-                                               (key "fns", Json.JArr (Stdlib.List.map jstr (Gen.emitted_fn_names i))) ]))
+                                               (key "fns", Json.JArr (Stdlib.List.map jstr (Gen.emitted_fn_names i)));
+                                               (key "known", Json.JArr (Stdlib.List.map (fun c -> Json.JStr (key (match c with
+                                                   | Gen.GReserved -> "ReservedIdent" | Gen.GDupType -> "DuplicateTypeName" | Gen.GDupFn -> "DuplicateFnName"
+                                                   | Gen.GFixedName -> "TypedefShadowsGeneratedName" | Gen.GKeywordFn -> "MethodNameIsKeyword"))) (Gen.known_classes i))) ]))
          | Idl.OParseError | Idl.ODuplicates _ -> "err"
          | Idl.OOutOfFuel -> "FUEL")
       | _ -> failwith "gen_model")
